@@ -269,6 +269,52 @@ def run(ctx):
     n = table_obligations(ctx, "C05.operators")
     ctx.anchor("operator table entries", n, 3 * 15 * 3 + 5 * 72 + 10 * 6)
     dunder_obligations(ctx, "C05.dunder", backends=("object", "sympy", "numpy"))
+    # ---- casts of NumPy vector arrays met by Awkward operators keep the flavor -------------------------------
+    import ast as _ast
+    from ..peval import BUILTINS, FuncVal
+    from ..ufuncs import extract_awkward_behaviors
+    ctx.rule("C05.cast-flavor", "behavior['__cast__', <NumPy vector class>] (used when an operator mixes Awkward and NumPy vectors) produces a record array of the same flavor and dimension as the NumPy array")
+    tab = extract_awkward_behaviors(ctx.repo)
+    BUILTINS["__true__"] = lambda I, a, k, n: True
+    names_of = {2: ("x", "y"), 3: ("rho", "phi", "eta"), 4: ("x", "y", "z", "tau")}
+    for d in (2, 3, 4):
+        for flavor in ("Vector", "Momentum"):
+            cname = f"{flavor}Numpy{d}D"
+            ent = None
+            for base in W.mro(cname):
+                ent = tab.get(("'__cast__'", base))
+                if ent is not None:
+                    break
+            if ent is None:
+                ctx.ob("C05.cast-flavor", cname, False, "no __cast__ behaviour reaches this class", None, "src/vector/backends/awkward.py")
+                continue
+            node = ent[3]
+            named = []
+            models = {
+                "awkward.Array": lambda I, a, k: Opaque("akarray", "akarray"),
+                "awkward.fields": lambda I, a, k, d=d: list(names_of[d]),
+                "awkward.zip": lambda I, a, k: Opaque("zipped", "akarray"),
+                "awkward.with_name": lambda I, a, k: (named.append(a[1] if len(a) > 1 else k.get("name")) or Opaque("named", "akarray")),
+            }
+            envc = W.module_env("vector.backends.awkward_constructors")
+            saved = envc.get("_is_type_safe")
+            envc["_is_type_safe"] = ("builtin", "__true__")
+            try:
+                I = Interp(W, ext_models=models)
+                v = Inst(W.classes[cname], {"__name__": "v"}, origin="abstract")
+                if isinstance(node, _ast.Lambda):
+                    fv = ("closure", FuncVal(node, "vector.backends.awkward"), {})
+                else:
+                    fv = W.lookup_global("vector.backends.awkward", unparse(node), I)
+                I.call(fv, [v], {})
+                got = named[-1] if named else None
+                msg = f"cast yields a record array named {got!r}, expected '{flavor}{d}D'"
+                ok = got == f"{flavor}{d}D"
+            except PyRaise as e:
+                ok, msg = False, f"raises {e.exc}: {e.msg[:80]}"
+            finally:
+                envc["_is_type_safe"] = saved
+            ctx.ob("C05.cast-flavor", cname, ok, msg, None, f"src/vector/backends/awkward.py:{ent[2]}", sample={"class": cname, "record": f"{flavor}{d}D"})
     # awkward: every record name has a behaviour class pair
     ctx.decline("type(result) as produced by NumPy view casting and Awkward behavior lookup at run time")
     ctx.decline("mixed object/NumPy with SymPy operands (rejected by _lib_of; outside the stated object < NumPy < Awkward lattice)")
